@@ -1,1 +1,2 @@
-/-! # C17 — property theorems (to be filled) -/
+import PraatModel.Extract
+/-! # C17 — property theorems (being filled) -/
